@@ -149,6 +149,8 @@ class Gen:
         self.n = rng.choice([1, 1, 2, 3, 4]) if self.flavour == "sched" else rng.choice([1, 1, 1, 2, 3])
         self.assocs = [rand_assoc(rng, self.flavour) for _ in range(self.n)]
         self.systime = "none" if rng.chance(1, 6) else str(SYSTIME_BASE + rng.below(1000))
+        # calm: no keep-alive, no polls, a response time-out that is not tiny and a slow retry
+        self.calm = all(a.ka == 0 and a.rto >= 100 and a.rmin >= 250 for a in self.assocs)
         self.npolls = [0] * self.n
         cfg = {"n": self.n, "systime": self.systime}
         for i, a in enumerate(self.assocs):
@@ -156,12 +158,14 @@ class Gen:
         return cfg
 
     def times(self):
-        """interesting durations of this configuration"""
+        """interesting durations of this configuration; a script may cross only a bounded number of
+        deadlines, so long sleeps are allowed only where nothing recurs quickly (`self.calm`)"""
         out = [0, 1, 2, 3, 10]
         for a in self.assocs:
             out += [a.rto - 1, a.rto, a.rto + 1, a.rmin, a.rmin - 1, a.rmin + 1, 2 * a.rmin, a.rmax, a.rmax + 1]
             if a.ka: out += [a.ka - 2, a.ka - 1, a.ka, a.ka + 1]
-        return [t for t in out if 0 <= t <= (1 << 35)]
+        cap = (1 << 35) if self.calm else 2500
+        return [t for t in out if 0 <= t <= cap]
 
     def op(self, hot):
         rng, n = self.rng, self.n
@@ -186,7 +190,7 @@ class Gen:
             if w < 44:
                 self.last_unsol = unsol(rng, n, hot, self.last_unsol)
                 return self.last_unsol
-            if w < 62: return ("sleep", rng.choice(self.times() + self.periods))
+            if w < 62: return ("sleep", min(2500, rng.choice(self.times() + self.periods)))
             if w < 76: return self.user()
             if w < 84: return self.add_poll()
             if w < 90: return ("demand", rng.below(n), rng.below(3))
@@ -212,6 +216,7 @@ class Gen:
         a = rng.below(self.n)
         if self.npolls[a] >= 3:
             return ("now",)
+        self.calm = False
         # distinct class masks per association so that a poll is recognised by its request bytes
         mask = [9, 10, 12][self.npolls[a]]
         self.npolls[a] += 1
